@@ -21,7 +21,8 @@ const Mod = load.ModulePath
 // P wraps a loaded program with lookup helpers.
 type P struct {
 	*load.Program
-	cg *CallGraph
+	cg   *CallGraph
+	refs map[*ssa.Function][]*ssa.Function
 }
 
 func New(p *load.Program) *P { return &P{Program: p} }
@@ -259,6 +260,37 @@ func WithClosures(fn *ssa.Function) []*ssa.Function {
 	for _, a := range fn.AnonFuncs {
 		out = append(out, WithClosures(a)...)
 	}
+	// a method value used as a callback (`x.ForEach(self.flushEntry)`) plays the role of a
+	// closure: include the method the bound wrapper forwards to
+	for _, b := range fn.Blocks {
+		for _, in := range b.Instrs {
+			mc, ok := in.(*ssa.MakeClosure)
+			if !ok {
+				continue
+			}
+			w, ok := mc.Fn.(*ssa.Function)
+			if !ok || w.Synthetic == "" || w.Parent() != nil {
+				continue
+			}
+			for _, wb := range w.Blocks {
+				for _, wi := range wb.Instrs {
+					if ci, isCall := wi.(ssa.CallInstruction); isCall {
+						if t := ci.Common().StaticCallee(); t != nil && t != fn && len(t.Blocks) > 0 {
+							dup := false
+							for _, o := range out {
+								if o == t {
+									dup = true
+								}
+							}
+							if !dup {
+								out = append(out, t)
+							}
+						}
+					}
+				}
+			}
+		}
+	}
 	return out
 }
 
@@ -276,6 +308,13 @@ func stripD(v ssa.Value, depth int) ssa.Value {
 	}
 	for i := 0; i < 32; i++ {
 		switch x := v.(type) {
+		case *ssa.Parameter:
+			// a helper's parameter bound to the caller's argument (see BindParams)
+			if b, ok := paramBind[x]; ok && b != nil && b != v {
+				v = b
+				continue
+			}
+			return v
 		case *ssa.ChangeType:
 			v = x.X
 		case *ssa.MakeInterface:
@@ -338,6 +377,38 @@ func stripD(v ssa.Value, depth int) ssa.Value {
 		}
 	}
 	return v
+}
+
+// paramBind maps parameters of a helper function under analysis to the
+// arguments of the call site it is analysed for (helper lifting in package eng).
+var paramBind = map[*ssa.Parameter]ssa.Value{}
+
+// Resolve returns the caller's argument a bound helper parameter stands for (v itself otherwise).
+func Resolve(v ssa.Value) ssa.Value {
+	if p, ok := v.(*ssa.Parameter); ok {
+		if b, ok := paramBind[p]; ok && b != nil {
+			return b
+		}
+	}
+	return v
+}
+
+// BindParams binds h's parameters to args until the returned function is called.
+func BindParams(h *ssa.Function, args []ssa.Value) func() {
+	var bound []*ssa.Parameter
+	for i, p := range h.Params {
+		if i < len(args) {
+			if _, had := paramBind[p]; !had {
+				paramBind[p] = args[i]
+				bound = append(bound, p)
+			}
+		}
+	}
+	return func() {
+		for _, p := range bound {
+			delete(paramBind, p)
+		}
+	}
 }
 
 // SingleStore returns the value stored into a local Alloc when there is
